@@ -1,14 +1,20 @@
 import FormulaicVerif.Engines.Json
+import FormulaicVerif.Engines.C01
 import FormulaicVerif.Model.Variables
 import FormulaicVerif.Model.Dot
 /-! Engine of the `c17` correspondence stream. Only decoding/encoding lives here; every observable
-is computed by `Model.Variables` (and, for `.`, by the parser model's `applyPlain`).
+is computed by `Model.Variables` and — for the formula itself (which parts, which factors, what every
+`.` expands to) — by the whole parser model (`Model.Parser.formulaOfString`, shared with C01) through
+`Model.Dot`. What comes in from CPython: the `ast` tree and alias table of every Python token, the
+normal form of Python tokens, the key lists of the layers.
 
-Values are symbolic strings (`data:x`, `context:f`, …) and the operations on them never fail, so
-the only way an evaluation fails in the engine is an unbound name. -/
+Values are symbolic strings (`data:x`, `context:f`, …); the symbolic operations never fail on their
+own (see `symOps`), so an evaluation fails in the engine because of an unbound name, a reserved name
+in a layer, or a closure whose body fails. -/
 namespace FormulaicVerif.Engines.C17
 open Lean FormulaicVerif.Model FormulaicVerif.Model.Variables FormulaicVerif.Engines
 
+mutual
 partial def exprOf (j : Json) : Expr :=
   match jstr j "t" with
   | "name" => .name (jstr j "id")
@@ -22,7 +28,12 @@ partial def exprOf (j : Json) : Expr :=
   | "binop" => .binop (jstr j "op") (exprOf (jval j "l")) (exprOf (jval j "r"))
   | "sub" => .subscript (exprOf (jval j "v")) (exprOf (jval j "i"))
   | "seq" => .seq (jstr j "k") ((jarr j "es").map exprOf)
+  | "lambda" => .lambda (strs j "ps") ((jarr j "ds").map exprOf) (exprOf (jval j "body"))
+  | "comp" => .comp (jstr j "k") ((jarr j "es").map exprOf) ((jarr j "gens").map genOf)
   | _ => .const "?"
+partial def genOf (j : Json) : Gen :=
+  .mk (strs j "ts") (exprOf (jval j "it")) ((jarr j "ifs").map exprOf)
+end
 
 def pairsOf (js : List Json) : List (String × String) :=
   js.map (fun kv => match kv with
@@ -54,14 +65,31 @@ def optStrJ : Option String → Json
 
 def varJ (v : Var) : Json := jlist [Json.str v.name, Json.bool v.value, Json.bool v.callable, optStrJ v.source]
 
+/-- a value that is, or contains, a closure whose body fails -/
+def broken (v : String) : Bool := (v.splitOn "closure!").length > 1
+
+/-- symbolic operations: values are strings that spell out how they were computed; no operation fails,
+every iterable has one item, every condition holds (except on the literals `False`, `0`, `None`), and a
+closure (lambda, generator expression) is run once with symbolic arguments when it is created — a
+closure whose body fails makes every call that involves it fail (the generated expressions call or
+consume every closure they create). -/
 def symOps : Ops String :=
   { const := fun r => r,
     attr := fun v a => .ok (v ++ "." ++ a),
-    call := fun f as ks => .ok (f ++ "(" ++ ", ".intercalate (as ++ ks.map (fun k => k.1 ++ "=" ++ k.2)) ++ ")"),
+    call := fun f as ks =>
+      if broken f || as.any broken || ks.any (fun k => broken k.2) then .error "closure body fails"
+      else .ok (f ++ "(" ++ ", ".intercalate (as ++ ks.map (fun k => k.1 ++ "=" ++ k.2)) ++ ")"),
     unop := fun o v => .ok (o ++ "(" ++ v ++ ")"),
     binop := fun o l r => .ok (o ++ "(" ++ l ++ ", " ++ r ++ ")"),
     subscript := fun v i => .ok (v ++ "[" ++ i ++ "]"),
-    seq := fun k vs => k ++ "[" ++ ", ".intercalate vs ++ "]" }
+    seq := fun k vs => k ++ "[" ++ ", ".intercalate vs ++ "]",
+    iter := fun v => .ok ["item(" ++ v ++ ")"],
+    truth := fun v => .ok (!(v == "False" || v == "0" || v == "None")),
+    unpack := fun n v => .ok ((List.range n).map (fun i => v ++ "[" ++ toString i ++ "]")),
+    closure := fun kind ps captured run =>
+      match run (ps.map (fun p => (p, "param:" ++ p))) with
+      | .ok v => kind ++ "{" ++ ", ".intercalate captured ++ " -> " ++ v ++ "}"
+      | .error _ => "closure!" ++ kind }
 
 def layerOf (tag : String) (names : List String) : List (String × String) :=
   names.map (fun n => (n, tag ++ ":" ++ n))
@@ -75,44 +103,99 @@ partial def ctxOf (j : Json) : LMap.Layer String :=
     .lm (match jval j "name" with | .str s => some s | _ => none)
       (layerOf "context" (strs j "muts")) ((jarr j "layers").map ctxOf)
 
-def runJ (L : Layers String) (fs : List PFactor) : Json :=
-  match materialize symOps L fs with
-  | .ok (vals, vars) =>
+def runJ (L : Layers String) (ps : List (List PFactor)) : Json :=
+  match materializeParts symOps L ps with
+  | .ok (vals, vars, req) =>
     Json.mkObj [("ok", Json.bool true), ("values", jstrs vals), ("vars", jlist (vars.map varJ)),
-      ("req", jstrs (specRequired vars)),
-      ("by_source", jlist ((bySource vars).map (fun p => jlist [optStrJ p.1, jstrs p.2])))]
+      ("req", jstrs req),
+      ("by_source", jlist ((specsBySource symOps L ps).map (fun p => jlist [optStrJ p.1, jstrs p.2]))),
+      ("fvars", jlist ((factorVariables symOps L ps.flatten).map (fun p => jlist [Json.str p.1,
+        match p.2 with | some vs => jstrs (vs.map (·.name)) | none => Json.null])))]
   | .error (.factorEvaluation c) =>
     Json.mkObj [("error", Json.str "FactorEvaluationError"),
-      ("cause", Json.str (match c with | .nameError _ => "NameError" | .other w => w))]
+      ("cause", Json.str (match c with
+        | .nameError _ => "NameError" | .unboundLocal _ => "UnboundLocalError" | .other w => w))]
 
+def layersOf (j : Json) : Layers String :=
+  { data := layerOf "data" (strs j "data"), context := ctxOf (jval j "context"),
+    transforms := layerOf "transforms" Gen.transformNames, builtins := layerOf "builtins" (strs j "builtins") }
+
+/-- named-layer observables: the names of `layered_context.named_layers`, and for every probed name
+the keys of `getattr(layered_context, name)` or `AttributeError` -/
+def namedJ (L : Layers String) (probe : List String) : List (String × Json) :=
+  [("named", jstrs ((namedLayers L.lm.toLayer).map (·.1))),
+   ("probe", jlist (probe.map (fun n => match getNamedLayer L.lm n with
+      | .ok l => jlist [Json.str n, jstrs l.keys]
+      | .error _ => jlist [Json.str n, Json.str "AttributeError"])))]
+
+def codesOf (j : Json) : List (String × Option PyCode) :=
+  (jarr j "codes").map (fun p => (jstr p "k", codeOf (jval p "code")))
+
+/-- `Formula(formula)` through the whole parser model (no `.`: nothing is available), then everything
+C17 observes about its factors -/
 def handleFormula (j : Json) : Json :=
-  let fs := (jarr j "factors").map factorOf
-  let L : Layers String :=
-    { data := layerOf "data" (strs j "data"), context := ctxOf (jval j "context"),
-      transforms := layerOf "transforms" Gen.transformNames, builtins := layerOf "builtins" (strs j "builtins") }
-  let bfsJ := jlist (fs.map (fun f => match f.kind with
+  let codes := codesOf j
+  match Dot.formulaWithDots (C01.envOf j).norm codes none (C01.charInfos j) with
+  | .error e => C01.errJ e
+  | .ok v =>
+  -- the factors of every part (`SimpleFormula`) of the formula, in `_map` order
+  let ps0 : List (List PFactor) := (Dot.parts v).map (Dot.partFactors codes)
+  let fs := ps0.flatten                -- each factor as written: what `Formula.required_variables` walks
+  let ps := poolParts ps0              -- as evaluated: one evaluation per expression
+  let L := layersOf j
+  let bfsJ := jlist (fs.map (fun f => jlist [Json.str f.expr, match f.kind with
     | .python (some c) => jlist ((astVariables c.ast c.aliases).map varJ)
-    | _ => Json.null))
+    | _ => Json.null]))
   let pre := formulaRequired fs
-  let full := materialize symOps L fs
   let sweep (names : List String) : List (String × Json) :=
-    [("restricted", runJ (L.restrict names) fs),
-     ("removed", jlist (names.map (fun v => jlist [Json.str v, runJ (L.remove v) fs])))]
+    [("restricted", runJ (L.restrict names) ps),
+     ("removed", jlist (names.map (fun v => jlist [Json.str v, runJ (L.remove v) ps])))]
   let preJ := match pre with
     | .error _ => jerr "SyntaxError"
     | .ok vs => Json.mkObj ([("vars", jlist (vs.map varJ))] ++ sweep (vs.map (·.name)))
-  let postJ := match full with
+  let postJ := match materializeParts symOps L ps with
     | .error _ => Json.null
-    | .ok (_, vars) => Json.mkObj (sweep (specRequired vars))
-  Json.mkObj [("bfs", bfsJ), ("pre", preJ), ("full", runJ L fs), ("post", postJ)]
+    | .ok (_, _, req) => Json.mkObj (sweep req)
+  -- what the `_context` handed to a stateful transform finds for the probed keys
+  let ctxProbe := jlist ((strs j "ctxkeys").map (fun k => match L.lm.getWithLayerName k with
+    | some (_, n) => jlist [Json.str k, Json.bool true, optStrJ n]
+    | none => jlist [Json.str k, Json.bool false, Json.null]))
+  Json.mkObj ([("formula", C01.valJ v), ("bfs", bfsJ), ("pre", preJ), ("full", runJ L ps), ("post", postJ),
+    ("ctx_probe", ctxProbe)] ++ namedJ L (strs j "probe"))
 
+/-- `ModelSpec.required_variables` of every part, in the shape of the formula -/
+def partsJ (L : Layers String) (codes : List (String × Option PyCode)) : Val → Json
+  | .set ts => match materialize symOps L (Dot.partFactors codes ts) with
+    | .ok (_, vars) => jstrs (specRequired vars)
+    | .error _ => Json.null
+  | .tuple vs => Json.mkObj [("t", jlist (listJ L codes vs))]
+  | .struct fs => Json.mkObj [("s", Json.mkObj (fieldsJ L codes fs))]
+where
+  listJ (L : Layers String) (codes : List (String × Option PyCode)) : List Val → List Json
+    | [] => []
+    | v :: vs => partsJ L codes v :: listJ L codes vs
+  fieldsJ (L : Layers String) (codes : List (String × Option PyCode)) : List (String × Val) → List (String × Json)
+    | [] => []
+    | (k, v) :: fs => (k, partsJ L codes v) :: fieldsJ L codes fs
+
+/-- `Formula.from_spec(formula, context=materializer.layered_context)` through the whole parser model,
+then the materialisation of all parts -/
 def handleDot (j : Json) : Json :=
-  let lhs := (jarr j "lhs").map tokOf
-  let cols := strs j "cols"
-  let used := lhsUsed lhs
-  match Dot.expand cols used with
-  | .ok ts => Json.mkObj [("used", jstrs used), ("terms", jlist (ts.map (fun t => jstrs (t.map (·.expr)))))]
-  | .error _ => jerr "FormulaParsingError"
+  let L := layersOf j
+  let codes := codesOf j
+  let env0 := C01.envOf j
+  let available : Option (List String) := match jstr j "avail_mode" with
+    | "explicit" => some (strs j "avail_list")     -- `__formulaic_variables_available__`
+    | "none" => none                               -- a context without a `data` layer
+    | _ => L.available                             -- the materializer's layered context
+  match Dot.formulaWithDots env0.norm codes available (C01.charInfos j) with
+  | .error e => C01.errJ e
+  | .ok v =>
+    let ps := poolParts ((Dot.parts v).map (Dot.partFactors codes))
+    Json.mkObj ([("formula", C01.valJ v), ("full", runJ L ps), ("parts", partsJ L codes v),
+      ("available", match available with | some a => jstrs a | none => Json.null),
+      ("tokprobe", jlist ((jarr j "tokprobe").map (fun t =>
+        jstrs (tokenRequired ⟨jstr t "text", .python (codeOf (jval t "code"))⟩))))] ++ namedJ L (strs j "probe"))
 
 def handle (j : Json) : Json :=
   match jstr j "op" with
